@@ -62,6 +62,7 @@ type itr struct {
 	rangeOnce string
 	brkVar    string
 	worldExt  map[string]string // methods of the translated struct itself kept as state-threading externs
+	tokField  map[string]string // `tok.field.Method(args)` on an object outside the module -> extern (tok.* = read, eff.* = write)
 	shadow    map[string]bool
 	joinIf    map[string]bool   // functions whose non-leaving if statements are joined
 	ptrOption bool              // *ID and *Mask are optional values (event code)
@@ -98,6 +99,21 @@ func (t *itr) derefCheck(recvT types.Type, recv string, pre *[]string) {
 }
 
 func (t *itr) usesEffExt(name string) bool { _, ok := t.effExt[name]; return ok }
+
+// tokFieldCall: `a.f.M(args)` where a is an object outside the module and f one of its members that is
+// itself a structure (the neighbour map of a graph node): the whole access is one extern on a
+func (t *itr) tokFieldCall(sel *ast.SelectorExpr) (ext string, recv ast.Expr, ok bool) {
+	inner, isSel := sel.X.(*ast.SelectorExpr)
+	if !isSel {
+		return "", nil, false
+	}
+	tn, isTok := t.tokenOf(t.typeOf(inner.X))
+	if !isTok {
+		return "", nil, false
+	}
+	ext, ok = t.tokField[tn+"."+inner.Sel.Name+"."+sel.Sel.Name]
+	return ext, inner.X, ok
+}
 
 // tokCall renders the application of a token extern
 func (t *itr) tokCall(ext string, args []string) string {
@@ -780,6 +796,22 @@ func (t *itr) call(x *ast.CallExpr, pre *[]string, wantValue bool) string {
 			}
 		}
 		return t.fail("call of a function-typed field: %s", types.ExprString(x.Fun))
+	}
+	if ext, rcv, ok := t.tokFieldCall(sel); ok {
+		as := []string{t.expr(rcv, pre)}
+		t.derefCheck(t.typeOf(rcv), as[0], pre)
+		for _, a := range x.Args {
+			as = append(as, t.expr(a, pre))
+		}
+		if strings.HasPrefix(t.extOwner[ext], "eff.") {
+			if !t.curEff {
+				return t.fail("effectful call %s in a function that does not thread the hidden state", ext)
+			}
+			rv := t.tmp("r")
+			*pre = append(*pre, fmt.Sprintf("let (ext, %s) := %s ext %s", rv, ext, strings.Join(as, " ")))
+			return rv
+		}
+		return t.tokCall(ext, as)
 	}
 	// method call on an lvalue path
 	recvTp := t.typeOf(sel.X)
@@ -1643,6 +1675,9 @@ func (t *itr) stmts(list []ast.Stmt, ind string) []string {
 		if lines, ok := t.countLoop(x, rest, ind); ok {
 			return append(out, lines...)
 		}
+		if lines, ok := t.searchLoop(x, rest, ind); ok {
+			return append(out, lines...)
+		}
 		return append(out, ind+t.fail("unsupported for loop"))
 	case *ast.BranchStmt:
 		if x.Tok == token.CONTINUE && t.loopVar != "" {
@@ -2060,6 +2095,124 @@ func (t *itr) countLoop(x *ast.ForStmt, rest []ast.Stmt, ind string) ([]string, 
 	return out, true
 }
 
+// retVals renders the operands of a return statement as one Lean value
+func (t *itr) retVals(x *ast.ReturnStmt, pre *[]string) string {
+	vs := []string{}
+	for i, r := range x.Results {
+		opt := i < len(t.curResT) && strings.HasPrefix(t.curResT[i], "Option")
+		if id, ok := r.(*ast.Ident); ok && id.Name == "nil" && opt {
+			vs = append(vs, "none")
+		} else if u, ok := r.(*ast.UnaryExpr); ok && u.Op == token.AND && opt {
+			vs = append(vs, "(some "+t.expr(u.X, pre)+")")
+		} else {
+			vs = append(vs, t.expr(r, pre))
+		}
+	}
+	if len(vs) == 1 {
+		return vs[0]
+	}
+	return "(" + strings.Join(vs, ", ") + ")"
+}
+
+// searchLoop: `for j = 0; j < n; j++ { v := e; ...; if c { return r } }` — a search that only reads: the loop
+// becomes a fold whose state is the value found so far (nothing after the first hit is evaluated), followed by
+// a case distinction: the early return, or the statements after the loop
+func (t *itr) searchLoop(x *ast.ForStmt, rest []ast.Stmt, ind string) ([]string, bool) {
+	init, ok1 := x.Init.(*ast.AssignStmt)
+	cond, ok2 := x.Cond.(*ast.BinaryExpr)
+	post, ok3 := x.Post.(*ast.IncDecStmt)
+	if !ok1 || !ok2 || !ok3 || len(x.Body.List) == 0 || len(t.curResT) == 0 {
+		return nil, false
+	}
+	jv, ok := init.Lhs[0].(*ast.Ident)
+	if !ok || len(init.Lhs) != 1 {
+		return nil, false
+	}
+	if tv, ok := t.p.info.Types[init.Rhs[0]]; !ok || tv.Value == nil || constant.Sign(tv.Value) != 0 {
+		return nil, false
+	}
+	cj, ok := cond.X.(*ast.Ident)
+	pj, ok2b := post.X.(*ast.Ident)
+	if !ok || !ok2b || cj.Name != jv.Name || pj.Name != jv.Name || cond.Op != token.LSS || post.Tok != token.INC {
+		return nil, false
+	}
+	unsignedCtr := false
+	if b, ok := t.typeOf(jv).Underlying().(*types.Basic); !ok || (b.Kind() != types.Int32 && b.Kind() != types.Uint32) {
+		return nil, false
+	} else if b.Kind() == types.Uint32 {
+		unsignedCtr = true
+	}
+	for _, r := range rest {
+		used := false
+		ast.Inspect(r, func(n ast.Node) bool {
+			if id, ok := n.(*ast.Ident); ok && id.Name == jv.Name {
+				used = true
+			}
+			return true
+		})
+		if used {
+			return nil, false
+		}
+	}
+	n := len(x.Body.List)
+	last, ok := x.Body.List[n-1].(*ast.IfStmt)
+	if !ok || last.Else != nil || last.Init != nil || len(last.Body.List) != 1 {
+		return nil, false
+	}
+	retS, ok := last.Body.List[0].(*ast.ReturnStmt)
+	if !ok {
+		return nil, false
+	}
+	for _, s := range x.Body.List[:n-1] {
+		as, ok := s.(*ast.AssignStmt)
+		if !ok || as.Tok != token.DEFINE || len(as.Lhs) != 1 || len(as.Rhs) != 1 {
+			return nil, false
+		}
+		if _, ok := as.Lhs[0].(*ast.Ident); !ok {
+			return nil, false
+		}
+	}
+	out := []string{}
+	pre := []string{}
+	nv := t.expr(cond.Y, &pre)
+	for _, l := range pre {
+		out = append(out, ind+l)
+	}
+	bound := "toInt.toNat"
+	if unsignedCtr {
+		bound = "toNat"
+	}
+	rt := paren(strings.Join(t.curResT, " × "))
+	fv := t.tmp("found")
+	jN := jv.Name + "N"
+	out = append(out, fmt.Sprintf("%slet %s ← (List.range ((%s).%s)).foldlM (fun (%s : Option %s) %s => do", ind, fv, nv, bound, fv, rt, jN))
+	bi := ind + "    "
+	out = append(out, fmt.Sprintf("%sif %s.isSome then pure %s else", bi, fv, fv))
+	out = append(out, fmt.Sprintf("%slet %s : BitVec 32 := BitVec.ofNat 32 %s", bi, jv.Name, jN))
+	for _, s := range x.Body.List[:n-1] {
+		as := s.(*ast.AssignStmt)
+		bp := []string{}
+		v := t.expr(as.Rhs[0], &bp)
+		for _, l := range bp {
+			out = append(out, bi+l)
+		}
+		out = append(out, fmt.Sprintf("%slet %s := %s", bi, as.Lhs[0].(*ast.Ident).Name, v))
+	}
+	bp := []string{}
+	cv := t.expr(last.Cond, &bp)
+	rv := t.retVals(retS, &bp)
+	for _, l := range bp {
+		out = append(out, bi+l)
+	}
+	out = append(out, fmt.Sprintf("%sif %s then pure (some %s) else pure none", bi, cv, rv))
+	out = append(out, fmt.Sprintf("%s  ) none", ind))
+	out = append(out, fmt.Sprintf("%smatch %s with", ind, fv))
+	out = append(out, fmt.Sprintf("%s| some r => %s", ind, t.ret("r")))
+	out = append(out, fmt.Sprintf("%s| none =>", ind))
+	out = append(out, t.stmts(rest, ind+"  ")...)
+	return out, true
+}
+
 // readPath reads the value at an lvalue using pre-evaluated indices
 func (t *itr) readPath(e ast.Expr, idx []string, pre *[]string) string {
 	root, steps, ok := t.lvalue(e)
@@ -2276,13 +2429,16 @@ func genPools(repo string, tiny bool) (string, []string) {
 	t.usesEff = map[string]bool{"World.LoadEntities": true, "World.Reset": true, "World.createEntity": true, "World.createEntities": true,
 		"World.removeArchetype": true, "World.cleanupArchetype": true, "World.cleanupArchetypes": true, "World.RemoveEntity": true,
 		"World.createArchetype": true, "World.setRelation": true, "World.exchangeNoNotify": true, "World.removeEntities": true,
-		"World.newEntitiesNoNotify": true, "World.notifyExchange": true, "World.exchange": true, "World.NewEntity": true}
+		"World.newEntitiesNoNotify": true, "World.notifyExchange": true, "World.exchange": true, "World.NewEntity": true,
+		"World.findArchetypeSlow": true, "World.findOrCreateArchetypeSlow": true, "World.findOrCreateArchetype": true}
 	t.reslice = map[string]bool{"World.createEntities": true}
 	t.ptrOption = true
 	t.joinIf = map[string]bool{"World.RemoveEntity": true, "World.createEntities": true, "World.createArchetype": true, "World.setRelation": true,
 		"World.exchangeNoNotify": true, "World.getExchangeMask": true, "World.removeEntities": true, "World.newEntitiesNoNotify": true,
-		"World.notifyExchange": true, "World.exchange": true, "World.NewEntity": true}
-	t.worldExt = map[string]string{"World.findOrCreateArchetype": "findOrCreateF"}
+		"World.notifyExchange": true, "World.exchange": true, "World.NewEntity": true,
+		"World.findArchetypeSlow": true, "World.findOrCreateArchetypeSlow": true, "World.findOrCreateArchetype": true}
+	t.worldExt = map[string]string{"World.findOrCreateArchetype": "findOrCreateF", "World.createArchetypeNode": "createNodeF"}
+	t.tokField = map[string]string{"archNode.neighbors.Get": "nodeNeighborGetF", "archNode.neighbors.Set": "nodeNeighborSetF"}
 	t.tokens["archetypeData"] = true
 	for k, v := range map[string]string{"archetype.SetPointer": "archSetPointerF", "archNode.CreateArchetype": "nodeCreateArchetypeF",
 		"pagedSlice.Add": "pagedAddF", "archetype.Init": "archInitF", "archNode.SetArchetype": "nodeSetArchetypeF"} {
@@ -2292,7 +2448,7 @@ func genPools(repo string, tiny bool) (string, []string) {
 	t.structs["EntityEvent"] = true
 	t.effExt["archetype.Remove"] = "archRemoveF"
 	t.nilChecks = map[string]bool{}
-	for _, f := range []string{"World.NewEntity", "World.notifyExchange", "World.exchange", "World.newEntitiesNoNotify", "World.removeEntities", "World.getExchangeMask", "World.exchangeNoNotify", "World.createArchetype", "World.setRelation", "World.RemoveEntity", "World.removeArchetype", "World.cleanupArchetype", "World.cleanupArchetypes", "World.createEntity", "World.createEntities", "World.Has", "World.HasUnchecked", "World.Mask",
+	for _, f := range []string{"World.findArchetypeSlow", "World.findOrCreateArchetypeSlow", "World.findOrCreateArchetype", "World.NewEntity", "World.notifyExchange", "World.exchange", "World.newEntitiesNoNotify", "World.removeEntities", "World.getExchangeMask", "World.exchangeNoNotify", "World.createArchetype", "World.setRelation", "World.RemoveEntity", "World.removeArchetype", "World.cleanupArchetype", "World.cleanupArchetypes", "World.createEntity", "World.createEntities", "World.Has", "World.HasUnchecked", "World.Mask",
 		"World.relationError", "World.checkRelation", "World.getRelation", "World.getRelationUnchecked"} {
 		t.nilChecks[f] = true
 	}
@@ -2314,7 +2470,7 @@ func genPools(repo string, tiny bool) (string, []string) {
 		"archNode.archetypeMap": "nodeArchMapF", "archNode.Archetypes": "nodeArchetypesF", "archetype.IsActive": "archActiveF", "pagedSlice.Get": "pagedGetF", "pagedSlice.Len": "pagedLenF",
 		"archetype.Len": "archLenF", "archetype.HasComponent": "archHasComponentF", "archetype.node": "archNodeF", "archNode.Relation": "nodeRelationF",
 		"archetype.HasRelationComponent": "archHasRelCompF", "archetype.RelationComponent": "archRelCompF", "archNode.Ids": "nodeIdsF", "archetype.GetEntity": "archGetEntityF",
-		"archNode.GetArchetype": "nodeGetArchetypeF", "archetype.Get": "archGetF", "archetype.Components": "archComponentsF"} {
+		"archNode.GetArchetype": "nodeGetArchetypeF", "archNode.Mask": "nodeMaskF", "archetype.Get": "archGetF", "archetype.Components": "archComponentsF"} {
 		t.tokExt[k] = v
 	}
 	for k, v := range map[string][2]string{
@@ -2329,6 +2485,10 @@ func genPools(repo string, tiny bool) (string, []string) {
 		"archSetEntityF":       {"eff.archSetEntity", "Ext → Option Nat → BitVec 32 → Entity → Ext × Unit"},
 		"staleF":               {"stale.entityIndex", "Nat → entityIndex"},
 		"archResetF":           {"eff.archReset", "Ext → Option Nat → Ext × Unit"},
+		"createNodeF":          {"eff.createNode", "Ext → World → " + mns + ".Mask → BitVec 8 → Bool → Ext × World × Option Nat"},
+		"nodeNeighborGetF":     {"tok.nodeNeighborGet", "Option Nat → BitVec 8 → Option Nat × Bool"},
+		"nodeNeighborSetF":     {"eff.nodeNeighborSet", "Ext → Option Nat → BitVec 8 → Option Nat → Ext × Unit"},
+		"nodeMaskF":            {"tok.nodeMask", "Option Nat → " + mns + ".Mask"},
 		"findOrCreateF":        {"eff.findOrCreate", "Ext → World → Option Nat → GoSlice (BitVec 8) → GoSlice (BitVec 8) → Entity → Ext × World × Option Nat"},
 		"archComponentsF":      {"tok.archComponents", "Option Nat → GoSlice (BitVec 8)"},
 		"archSetPointerF":      {"eff.archSetPointer", "Ext → Option Nat → BitVec 32 → BitVec 8 → GoAny → Ext × Unit"},
@@ -2394,6 +2554,7 @@ func genPools(repo string, tiny bool) (string, []string) {
 		"World.relationError", "World.checkRelation", "World.getRelation", "World.getRelationUnchecked",
 		"Entity.IsZero", "World.removeArchetype", "World.cleanupArchetype", "World.cleanupArchetypes", "World.RemoveEntity",
 		"World.createArchetype", "World.setRelation", "World.getExchangeMask", "World.exchangeNoNotify", "World.removeEntities", "World.newEntitiesNoNotify", "World.notifyExchange", "World.exchange", "World.NewEntity",
+		"World.findArchetypeSlow", "World.findOrCreateArchetypeSlow", "World.findOrCreateArchetype",
 	}
 	// which functions need the uninterpreted-function parameters (directly or through a callee)
 	calls := map[string][]string{}
@@ -2418,7 +2579,7 @@ func genPools(repo string, tiny bool) (string, []string) {
 					name := nt.Obj().Name() + "." + sel.Sel.Name
 					if _, isExt := t.externs[name]; isExt {
 						direct[f][sel.Sel.Name+"F"] = true
-					} else {
+					} else if _, viaExt := t.worldExt[name]; !viaExt {
 						calls[f] = append(calls[f], name)
 					}
 				}
